@@ -307,3 +307,39 @@ func TestF14b_PercentPath(t *testing.T) {
 		_ = analysis.Flatten(analysis.FlattenOpts{Spec: an, BasePath: "/tmp/x.json"})
 	})
 }
+
+// F16 (C01/C02): an imported schema whose inner $ref targets a definition with '#' in its name:
+// normalize.RebaseRef splits the reference on every '#' and keeps only the piece before the second one.
+func TestF16_HashInImportedRef(t *testing.T) {
+	dir := t.TempDir()
+	aux := `{"definitions":{"holder":{"type":"object","properties":{"p":{"$ref":"#/definitions/a%23b"}}},"a#b":{"type":"object","properties":{"id":{"type":"integer"}}}}}`
+	if err := os.WriteFile(filepath.Join(dir, "aux.json"), []byte(aux), 0o600); err != nil {
+		t.Fatal(err)
+	}
+	root := `{"swagger":"2.0","paths":{"/a":{"get":{"responses":{"200":{"description":"ok","schema":{"$ref":"aux.json#/definitions/holder"}}}}}}}`
+	rootPath := filepath.Join(dir, "root.json")
+	if err := os.WriteFile(rootPath, []byte(root), 0o600); err != nil {
+		t.Fatal(err)
+	}
+	sw := load(t, root)
+	an := analysis.New(sw)
+	if err := analysis.Flatten(analysis.FlattenOpts{Spec: an, BasePath: rootPath, Minimal: true}); err != nil {
+		t.Fatalf("flatten: %v", err)
+	}
+	h, ok := sw.Definitions["holder"]
+	if !ok {
+		t.Fatalf("holder not imported: %v", keys(sw.Definitions))
+	}
+	p := h.Properties["p"]
+	target := p.Ref.String()
+	// the property must still designate the imported definition a#b (under whatever name it was given)
+	found := false
+	for name, d := range sw.Definitions {
+		if _, has := d.Properties["id"]; has && (target == "#/definitions/"+name || target == "#/definitions/a%23b") {
+			found = true
+		}
+	}
+	if !found {
+		t.Errorf("property p of the imported holder now refers to %q; definitions: %v", target, keys(sw.Definitions))
+	}
+}
